@@ -1,6 +1,7 @@
 package batchers
 
 import (
+	"bytes"
 	"compress/gzip"
 	"io"
 	"os"
@@ -63,16 +64,42 @@ func openFileToReader(filename string, gunzip bool) (io.ReadCloser, error) {
 	var file io.ReadCloser = baseFile
 
 	if gunzip {
-		zfile, err := gzip.NewReader(file)
+		probe := &probeRecorder{r: baseFile, recording: true}
+		zfile, err := gzip.NewReader(probe)
+		probe.recording = false
 		if err != nil {
 			logger.Printf("Gunzip error for file %s: %v; Reading as plain file", filename, err)
-			baseFile.Seek(0, io.SeekStart) // Rewind, since it probably took a few bytes to figure out this wasn't a gzip file
+			// Rewind, since it probably took a few bytes to figure out this wasn't a gzip file
+			if _, serr := baseFile.Seek(0, io.SeekStart); serr != nil {
+				// Can't rewind a pipe: hand back what the probe consumed, then the rest
+				file = &replayReadCloser{Reader: io.MultiReader(bytes.NewReader(probe.head), baseFile), Closer: baseFile}
+			}
 		} else {
 			file = zfile
 		}
 	}
 
 	return file, nil
+}
+
+// probeRecorder remembers what is read through it while recording
+type probeRecorder struct {
+	r         io.Reader
+	recording bool
+	head      []byte
+}
+
+func (s *probeRecorder) Read(p []byte) (int, error) {
+	n, err := s.r.Read(p)
+	if s.recording {
+		s.head = append(s.head, p[:n]...)
+	}
+	return n, err
+}
+
+type replayReadCloser struct {
+	io.Reader
+	io.Closer
 }
 
 // Aggregate one channel into another, with a buffer
